@@ -18,10 +18,10 @@ PROPERTY = 'C05'
 LEVEL = 'exploration'
 RULE = ('one case = (position in {first, after PASS, after FAIL, in subtest, in teardown}, '
         'per-invocation behaviour sequence over {None, CONTINUE, FAIL_AND_CONTINUE, '
-        'FAIL_SUBTEST, SKIP, REPEAT, STOP, raise, non-PhaseResult, time-out}, repeat_limit in '
+        'FAIL_SUBTEST, SKIP, REPEAT, STOP, raise, non-PhaseResult incl. falsy 0/False/\'\'/[], time-out}, repeat_limit in '
         '{None,1,2,4}, one of {none, force_repeat, repeat_on_measurement_fail, '
         'repeat_on_timeout, stop_on_measurement_fail, stop_on_first_failure}, run_if in '
-        '{none,true,false,raises}, measurement in {none,pass,fail,marginal,unset +- '
+        '{none,true,false,raises, stateful per evaluation}, measurement in {none,pass,fail,marginal,unset +- '
         'allow_unset}, diagnosers in {none,pass,failure,raises,raises+pass,two}); a reduced '
         'core product is enumerated completely and the full product is sampled; distinct = '
         'distinct case; non-trivial = at least one invocation or record of the phase under '
@@ -40,12 +40,13 @@ PLAN = {
                  'wall_limit_s': 7200},
 }
 
-CODES = ['C', 'CC', 'F', 'U', 'K', 'R', 'X', 'S', 'T', 'BAD']
+CODES = ['C', 'CC', 'F', 'U', 'K', 'R', 'X', 'S', 'T', 'BAD', 'BAD0', 'BADF']
 POSITIONS = ['first', 'after_pass', 'after_fail', 'in_subtest', 'in_teardown']
 LIMITS = [None, 1, 2, 4]
 OPTS = [None, 'force_repeat', 'repeat_on_measurement_fail', 'repeat_on_timeout',
         'stop_on_measurement_fail', 'sof']
-RUN_IFS = [None, True, False, 'raise']
+RUN_IFS = [None, True, False, 'raise', [True, False], [True, False, True],
+           [False, True], [True, 'raise']]
 MEAS = [None, 'pass', 'fail', 'marginal', 'unset', 'unset_allowed']
 DIAGS = [None, 'pass', 'failure', 'raises', 'raises+pass', 'two']
 
@@ -118,7 +119,8 @@ def enumerated(tier):
   for run_if in RUN_IFS:
     for opt in OPTS:
       for pos in POSITIONS:
-        for seq in (['C'], ['F'], ['R', 'C'], ['X']):
+        for seq in (['C'], ['F'], ['R', 'C'], ['X'], ['R', 'R', 'C'], ['BADS'],
+                    ['BADL']):
           for meas in (None, 'fail'):
             yield make(pos, seq, None, opt, run_if, meas, 'pass')
 
